@@ -19,7 +19,11 @@ type c19Conn struct {
 	handouts int
 }
 
-func (c *c19Conn) Usable() bool         { return c.usable }
+// Usable probes the connection (an SMTP round trip for the real mxConn): time passes.
+func (c *c19Conn) Usable() bool {
+	time.Now()
+	return c.usable
+}
 func (c *c19Conn) LastUseAt() time.Time { return c.lastUse }
 func (c *c19Conn) Close() error {
 	c.closes++
@@ -76,6 +80,13 @@ func harness_C19_pool() {
 					verifFail("C19.handed-out-unusable")
 				}
 				if !fresh && c.lastUse.Add(lifetime*time.Second).Before(t0) {
+					verifFail("C19.handed-out-after-idle-lifetime")
+				}
+				// ... also when the lifetime ended while Get was running (probing an
+				// earlier connection, waiting for the lock): the instant of the
+				// pool's own last clock reading is the current one, no time has
+				// passed since
+				if !fresh && verifSymbolic() && c.lastUse.Add(lifetime*time.Second).Before(verifClock()) {
 					verifFail("C19.handed-out-after-idle-lifetime")
 				}
 				if !fresh && startedAfterClose {
